@@ -48,6 +48,7 @@ func RegisterCodecs() {
 		_ = xprotocol.RegisterXProtocolCodec(&dubbo.XCodec{})
 		_ = xprotocol.RegisterXProtocolCodec(&dubbothrift.XCodec{})
 		_ = xprotocol.RegisterXProtocolCodec(&tars.XCodec{})
+		_ = xprotocol.RegisterXProtocolCodec(&ppCodec{})
 	})
 }
 
